@@ -12,8 +12,10 @@ def judge(part, scn, x):
 
 def menu(tier):
     scn = []
+    # with state pruning (ddv/sched.py fingerprint) budget 2 costs about
+    # what budget 1 cost without it
     b1 = 2 if tier == 'thorough' else 1
-    b2 = 2 if tier == 'thorough' else 1
+    b2 = 3 if tier == 'thorough' else 2
     # concrete command families, all strategies, j in {2,3}
     for inp, mname, ms, b in (
             ('bool5', 'and+b', 'default', b1),
@@ -29,9 +31,10 @@ def menu(tier):
         model = dict(S.MODELS[inp])[mname]
         for strat in S.STRATEGIES:
             for j in (2, 3):
+                bb = b if (tier == 'thorough' or j == 2) else min(b, 1)
                 scn.append(S.mk(f'{inp}/{mname}/{strat}/j{j}/{ms}', inp,
                                 model, strat, j, S.MUTATOR_SETS[ms],
-                                budget=b))
+                                budget=bb))
     # ddmin's parallel path (_check_par): models that need most of the input
     for inp, models in S.MODELS_DDMIN.items():
         for mname, model in models:
@@ -41,10 +44,13 @@ def menu(tier):
                                ('erase', 'default')):
                         if ms == 'default' and j == 3:
                             continue
+                        bb = b2 if ms == 'erase' else b1
+                        if tier != 'thorough' and (j == 3 or
+                                                   strat == 'hybrid'):
+                            bb = 1
                         scn.append(S.mk(
                             f'{inp}/{mname}/{strat}/j{j}/{ms}/par', inp,
-                            model, strat, j, S.MUTATOR_SETS[ms],
-                            budget=b2 if ms == 'erase' else b1))
+                            model, strat, j, S.MUTATOR_SETS[ms], budget=bb))
     # adversarial, lazily decided command: every deterministic command that
     # accepts at most A of the candidates it is shown
     for inp, ms in (('micro', 'core'), ('micro2', 'core'),
@@ -54,9 +60,10 @@ def menu(tier):
                 scn.append(S.mk(f'{inp}/adversarial/A2/{strat}/j{j}/{ms}',
                                 inp, ('adversarial', ), strat, j,
                                 S.MUTATOR_SETS[ms], budget=0, accept=2))
-            scn.append(S.mk(f'{inp}/adversarial/A1s1/{strat}/j2/{ms}',
-                            inp, ('adversarial', ), strat, 2,
-                            S.MUTATOR_SETS[ms], budget=1, accept=1))
+            if tier == 'thorough' or (inp, ms) != ('micro2', 'core'):
+                scn.append(S.mk(f'{inp}/adversarial/A1s1/{strat}/j2/{ms}',
+                                inp, ('adversarial', ), strat, 2,
+                                S.MUTATOR_SETS[ms], budget=1, accept=1))
     if tier == 'thorough':
         for strat in S.STRATEGIES:
             scn.append(S.mk(f'asserts8/adversarial/A2/{strat}/j2/erase',
@@ -72,8 +79,15 @@ def budgets_of(scn):
     return {'sched': scn.get('budget', 0), 'accept': scn.get('accept', 0)}
 
 
+def pruned(menu_):
+    for s in menu_:
+        if s['model'][0] != 'adversarial':
+            s['prune'] = True
+    return menu_
+
+
 RULE = ('scenarios with -j 2/3, all strategies; schedule budget 1-2 '
-        '(thorough 2-3) incl. simultaneous successes and late results; '
+        '(thorough 2-3), with pruning of revisited control states, incl. simultaneous successes and late results; '
         'adversarial command: every deterministic command accepting at most '
         '2 of the candidates shown; oracle on monitored events '
         '(derive(base,cand), verdict, write, file at exit); '
@@ -82,7 +96,8 @@ RULE = ('scenarios with -j 2/3, all strategies; schedule budget 1-2 '
 
 def main(tier):
     return schedcheck.run(
-        PROP, 'model_checking', tier, menu(tier), judge, budgets_of, RULE,
+        PROP, 'model_checking', tier, pruned(menu(tier)), judge, budgets_of,
+        RULE,
         ('virtual pool abstraction (DESIGN 2.5)',
          'monitors on apply_simp / check_exprs / write_smtlib_to_file are '
          'pass-through', 'reference tokenizer ddv/sexp.py'),
